@@ -115,7 +115,6 @@ type siteTable struct {
 	name map[ssa.Instruction]string
 }
 
-var siteCache = map[*ssa.Function]*siteTable{}
 
 func calleeName(c *ssa.CallCommon) string {
 	if c.IsInvoke() {
@@ -170,7 +169,10 @@ func allocElem(a *ssa.Alloc) types.Type { return a.Type().(*types.Pointer).Elem(
 // source position among instructions of the same SSA kind (calls: by callee name).
 func (e *Engine) siteOf(f *Frame, ins ssa.Instruction) string {
 	fn := f.fn
-	tab := siteCache[fn]
+	if e.siteCache == nil {
+		e.siteCache = map[*ssa.Function]*siteTable{}
+	}
+	tab := e.siteCache[fn]
 	if tab == nil {
 		tab = &siteTable{name: map[ssa.Instruction]string{}}
 		type item struct {
@@ -202,7 +204,7 @@ func (e *Engine) siteOf(f *Frame, ins ssa.Instruction) string {
 			cnt[it.kind]++
 			tab.name[it.ins] = fmt.Sprintf("%s#%d", it.kind, cnt[it.kind])
 		}
-		siteCache[fn] = tab
+		e.siteCache[fn] = tab
 	}
 	n := tab.name[ins]
 	if f.name != "" {
